@@ -106,11 +106,13 @@ theorem stdin_like_dashes (cmd : Col → Except Err String) :
 /-- Empty stdin means "no colours", not an error, for the iterating commands (for `mix`: once its
 base and fraction have been read); a `-` argument with empty stdin is `CouldNotReadFromStdin`. -/
 theorem empty_stdin (sub : String) (args : List String)
-    (hsub : sub ≠ "mix" ∧ sub ≠ "gray" ∧ sub ≠ "gradient" ∧ sub ≠ "sort-by" ∧ sub ≠ "paint") :
+    (hsub : sub ≠ "mix" ∧ sub ≠ "gray" ∧ sub ≠ "gradient" ∧ sub ≠ "sort-by" ∧ sub ≠ "paint" ∧
+      sub ≠ "random" ∧ sub ≠ "distinct" ∧ sub ≠ "pick") :
     run sub args [] [] = { lines := [], err := none } ∧
     (loopArgs (commandBody sub args) ["-"] []).err = some .couldNotReadFromStdin := by
   constructor
-  · unfold run; simp [loopStdin, hsub.1, hsub.2.1, hsub.2.2.1, hsub.2.2.2.1, hsub.2.2.2.2]
+  · unfold run; simp [loopStdin, hsub.1, hsub.2.1, hsub.2.2.1, hsub.2.2.2.1, hsub.2.2.2.2.1, hsub.2.2.2.2.2.1,
+      hsub.2.2.2.2.2.2.1, hsub.2.2.2.2.2.2.2]
   · simp [loopArgs, colorFromArg, colorFromStdin]
 
 /-- `sort-by` with no colours and an empty stdin prints nothing and succeeds; with an unreadable
